@@ -313,6 +313,42 @@ pub fn replay_auth(a: &Args) -> i32 {
         }
         req
     };
+    // allow-lists of every size, in every order
+    for (ri, row) in tables["auth_sizes"].as_array().unwrap().iter().enumerate() {
+        ID_POS.store(ri * 5 + 2, std::sync::atomic::Ordering::Relaxed);
+        evaluations += 1;
+        let n = row["n"].as_u64().unwrap();
+        let mut list: Vec<u64> = (1..=n).collect();
+        match row["order"].as_str().unwrap() {
+            "desc" => list.reverse(),
+            "scrambled" => list.sort_by_key(|k| (k * 7919 + 13) % 31),
+            _ => {}
+        }
+        let sender = row["sender"].as_u64().unwrap();
+        let rec = Recorder::default();
+        let rid = 9000 + ri as u64;
+        let mut req = Request::new(Bytes::from(format!("payload-{rid}"))).with_header("rid", rid.to_string());
+        if sender != 0 {
+            req = req.with_extension(peer_id(sender));
+        }
+        let mut svc = RequireAuthorizationLayer::new(AllowedPeers::new(list.iter().map(|k| peer_id(*k)))).layer(rec.clone());
+        let mut f: AuthFut = Box::pin(svc.call(req));
+        let got = match poll_auth(&mut f) {
+            Poll::Ready(Ok(res)) => {
+                let invoked = rec.invoked.lock().unwrap().contains(&rid);
+                match (res.status(), invoked) {
+                    (StatusCode::Success, true) => "pass",
+                    (StatusCode::NotFound, false) => "NotFound",
+                    (StatusCode::InternalServerError, false) => "InternalServerError",
+                    _ => "other",
+                }
+            }
+            _ => "not ready",
+        };
+        if got != row["verdict"].as_str().unwrap() && mismatches.len() < 5 {
+            mismatches.push(json!({"table": "auth_sizes", "row": row, "got": got}));
+        }
+    }
     // stacked layers and extra extensions
     for (ti, table) in ["auth_stack", "auth_extra"].iter().enumerate() {
         for (ri, row) in tables[*table].as_array().unwrap().iter().enumerate() {
